@@ -249,9 +249,15 @@ def _prime_to_while_true(loop, before, norm):
     """N24: x = E; ...; while x: BODY; x = E   ->   ...; while True: x = E; if not x: break; BODY
     (the priming read and the re-read at the end of the body are one read at the head of each iteration)"""
     from .inline import _has_impure_call, _read_roots, _write_roots
-    if not (isinstance(loop.test, ast.Name) and not loop.orelse and len(loop.body) >= 2):
+    if loop.orelse or len(loop.body) < 2 or (isinstance(loop.test, ast.Constant)):
         return
-    x = loop.test.id
+    last0 = loop.body[-1]
+    if not (isinstance(last0, ast.Assign) and len(last0.targets) == 1 and isinstance(last0.targets[0], ast.Name)):
+        return
+    x = last0.targets[0].id
+    # the loop test reads x (while x: / while x != 0:) and binds nothing
+    if not any(isinstance(t, ast.Name) and t.id == x for t in ast.walk(loop.test)) or any(isinstance(t, ast.NamedExpr) for t in ast.walk(loop.test)):
+        return
     last = loop.body[-1]
     if not (isinstance(last, ast.Assign) and len(last.targets) == 1 and isinstance(last.targets[0], ast.Name) and last.targets[0].id == x):
         return
@@ -270,7 +276,7 @@ def _prime_to_while_true(loop, before, norm):
     if k < 0:
         return
     prime = before.pop(k)
-    brk = ast.copy_location(ast.If(test=ast.UnaryOp(op=ast.Not(), operand=ast.Name(id=x, ctx=ast.Load())), body=[ast.Break()], orelse=[]), loop)
+    brk = ast.copy_location(ast.If(test=norm.visit(ast.UnaryOp(op=ast.Not(), operand=loop.test)), body=[ast.Break()], orelse=[]), loop)
     loop.body = norm._block([prime, brk] + loop.body[:-1])
     loop.test = ast.copy_location(ast.Constant(value=True), loop.test)
 
@@ -401,6 +407,21 @@ class _Norm(ast.NodeTransformer):
                 n.test = neg
                 n.body = rest
         # N21: while (x := e): BODY  ->  while True: x = e; if not x: break; BODY      (no else clause)
+        # ... and `while (x := e) != 0:` likewise: the binding first, then the test on the name
+        walrus = [x for x in ast.walk(n.test) if isinstance(x, ast.NamedExpr)]
+        if len(walrus) == 1 and not isinstance(n.test, ast.NamedExpr) and not n.orelse and isinstance(walrus[0].target, ast.Name) and \
+                not isinstance(n.test, ast.BoolOp):
+            wx = walrus[0]
+
+            class R(ast.NodeTransformer):
+                def visit_NamedExpr(s, m):
+                    return ast.copy_location(ast.Name(id=wx.target.id, ctx=ast.Load()), m) if m is wx else m
+            asg = ast.copy_location(ast.Assign(targets=[ast.Name(id=wx.target.id, ctx=ast.Store())], value=wx.value), n)
+            tst = R().visit(n.test)
+            brk = ast.copy_location(ast.If(test=self.visit(ast.UnaryOp(op=ast.Not(), operand=tst)), body=[ast.Break()], orelse=[]), n)
+            n.body = self._block([asg, brk] + n.body)
+            n.test = ast.copy_location(ast.Constant(value=True), n)
+            return n
         if isinstance(n.test, ast.NamedExpr) and not n.orelse and isinstance(n.test.target, ast.Name):
             x = n.test.target.id
             asg = ast.copy_location(ast.Assign(targets=[ast.Name(id=x, ctx=ast.Store())], value=n.test.value), n)
